@@ -329,6 +329,17 @@ func (c *Ctx) buildLin(l *linAcc) *Term {
 	if len(l.terms) == 0 {
 		return c.Const(l.c)
 	}
+	if len(l.terms) == 1 {
+		for id, t := range l.terms {
+			// k*ite(c, a, b) + d with constant a, b  ->  ite(c, k*a+d, k*b+d)
+			if t.Op == OIte && !t.Bool && (t.Args[1].IsConst() && t.Args[2].IsConst()) {
+				k := l.coef[id]
+				a := new(big.Int).Add(new(big.Int).Mul(t.Args[1].C, k), l.c)
+				b := new(big.Int).Add(new(big.Int).Mul(t.Args[2].C, k), l.c)
+				return c.Ite(t.Args[0], c.Const(a), c.Const(b))
+			}
+		}
+	}
 	ids := make([]int, 0, len(l.terms))
 	for id := range l.terms {
 		ids = append(ids, id)
@@ -569,6 +580,31 @@ func (c *Ctx) splitMultiple(a *Term, k *big.Int) (*Term, *Term) {
 	return c.buildLin(la), c.buildLin(lr)
 }
 
+// scaledSplit finds g (1 < g < k, g | k) with a = g*A + B and 0 <= B < g.
+func (c *Ctx) scaledSplit(a *Term, k *big.Int) (*big.Int, *Term, *Term, bool) {
+	if a.Op != OLin {
+		return nil, nil, nil, false
+	}
+	var best *big.Int
+	for _, co := range a.Coef {
+		g := new(big.Int).Abs(co)
+		if g.Cmp(big1) <= 0 || g.Cmp(k) >= 0 || new(big.Int).Mod(k, g).Sign() != 0 {
+			continue
+		}
+		if best == nil || g.Cmp(best) > 0 {
+			A, B := c.splitMultiple(a, g)
+			if B.Lo != nil && B.Hi != nil && B.Lo.Sign() >= 0 && B.Hi.Cmp(g) < 0 && !(A.Op == OConst && A.C.Sign() == 0) {
+				best = g
+			}
+		}
+	}
+	if best == nil {
+		return nil, nil, nil, false
+	}
+	A, B := c.splitMultiple(a, best)
+	return best, A, B, true
+}
+
 func (c *Ctx) DivC(a *Term, k *big.Int) *Term {
 	if k.Sign() <= 0 {
 		panic("term: DivC by non-positive constant")
@@ -597,6 +633,10 @@ func (c *Ctx) DivC(a *Term, k *big.Int) *Term {
 	}
 	if a.Op == OIte && (a.Args[1].IsConst() || a.Args[2].IsConst()) {
 		return c.Ite(a.Args[0], c.DivC(a.Args[1], k), c.DivC(a.Args[2], k))
+	}
+	// (g*A + B) div k = A div (k/g) when g | k and 0 <= B < g
+	if g, A, _, ok := c.scaledSplit(a, k); ok {
+		return c.DivC(A, new(big.Int).Quo(k, g))
 	}
 	// (x div m) div k = x div (m*k)
 	if a.Op == ODiv && a.Args[1].IsConst() {
@@ -642,6 +682,10 @@ func (c *Ctx) ModC(a *Term, k *big.Int) *Term {
 	}
 	if a.Op == OIte && (a.Args[1].IsConst() || a.Args[2].IsConst()) {
 		return c.Ite(a.Args[0], c.ModC(a.Args[1], k), c.ModC(a.Args[2], k))
+	}
+	// (g*A + B) mod k = g*(A mod (k/g)) + B when g | k and 0 <= B < g
+	if g, A, B, ok := c.scaledSplit(a, k); ok {
+		return c.Add(c.MulC(c.ModC(A, new(big.Int).Quo(k, g)), g), B)
 	}
 	// (x mod m) mod k = x mod k when k | m
 	if a.Op == OMod && a.Args[1].IsConst() && new(big.Int).Mod(a.Args[1].C, k).Sign() == 0 {
